@@ -21,6 +21,7 @@
 //   rwmut <name>                                 the same mutator in a read-write session on a scratch copy (shows
 //                                                that the call itself is well formed)  -> <name> OK
 //   nomut <name> <ro|rw>                         a mutating-looking call that has nothing to write in that state
+//   mutin <name> <unlink-checked>                one mutator of the table inside the current session -> <name> OK|ERR attrs=.. fileref=..
 //   battery                                      read everything: data, sections, tagged data, validator
 //   flush | close                                -> 1 attrs=0 / objs=0
 //   hold <kind> <n> | drop <kind> <n>            acquire / release live handles on the rich block "r"
